@@ -284,6 +284,199 @@ theorem ff_main (S : List Sample) (hS : SSorted S) (cs : List RChunk)
           simp only [fits, hl, decide_eq_true_eq] at hfit
           omega
 
+/-- **Row 0 of first-fit, with an upper bound.**  As `ff_main`, but a following chunk is only
+    required where the next sample is at or before `Mx` (chunks starting after `Mx` are not sent by
+    the stores): row 0 is a gap-free prefix `P` of `S` and whatever of `S` follows it lies after `Mx`. -/
+theorem ff_bounded (S : List Sample) (hS : SSorted S) (cs : List RChunk) (Mx : Int)
+    (hmx : ∀ c ∈ cs, c.mint ≤ Mx)
+    (hcut : ∀ c ∈ cs, c.samples ≠ [] ∧ c.samples <:+: S)
+    (hsorted : cs.Pairwise (fun a b => a.mint ≤ b.mint))
+    (hsucc : ∀ P Q g, S = P ++ Q → Q.head? = some g → g.t ≤ Mx → (P = [] ∨ ∃ c ∈ cs, c.samples <:+ P) →
+      ∃ d ∈ cs, d.samples ≠ [] ∧ d.samples <+: Q)
+    (hne : cs ≠ []) :
+    ∀ (rest done row : List RChunk) (P Q : List Sample), cs = done ++ rest → S = P ++ Q →
+      row.flatMap (·.samples) = P →
+      ((row = [] ∧ P = [] ∧ done = []) ∨
+        ∃ l, row.getLast? = some l ∧ l ∈ cs ∧ l.samples <:+ P ∧ ∀ c ∈ done, c.mint ≤ l.maxt) →
+      ∃ P' Q', S = P' ++ Q' ∧ (rest.foldl ffStep row).flatMap (·.samples) = P' ∧
+        ∀ g, Q'.head? = some g → Mx < g.t := by
+  intro rest
+  induction rest with
+  | nil =>
+    intro done row P Q hcs hPQ hrow hinv
+    simp only [List.foldl_nil]
+    refine ⟨P, Q, hPQ, hrow, ?_⟩
+    intro g hg
+    refine Classical.byContradiction fun hcon => ?_
+    have hgM : g.t ≤ Mx := by omega
+    rcases hinv with ⟨_, _, hd⟩ | ⟨l, hl, hlcs, hlP, hdone⟩
+    · apply hne; rw [hcs, hd]; rfl
+    · obtain ⟨d, hd, hdne, hdQ⟩ := hsucc P Q g hPQ hg hgM (Or.inr ⟨l, hlcs, hlP⟩)
+      obtain ⟨y, r', hy⟩ : ∃ y r', d.samples = y :: r' := by
+        cases hds : d.samples with
+        | nil => exact absurd hds hdne
+        | cons y r' => exact ⟨y, r', rfl⟩
+      have hdm := (mint_of_cons hy).1
+      have hdd : d ∈ done := by rw [hcs] at hd; simpa using hd
+      have h1 := hdone d hdd
+      obtain ⟨lx, lr, hlx⟩ : ∃ lx lr, l.samples = lx :: lr := by
+        cases hls : l.samples with
+        | nil => exact absurd hls (hcut l hlcs).1
+        | cons lx lr => exact ⟨lx, lr, rfl⟩
+      have hlm := (mint_of_cons hlx).2
+      have hlast : (lx :: lr).getLast? = some (lr.getLast?.getD lx) := getLast?_cons_getD lr lx
+      have hinP : (lr.getLast?.getD lx) ∈ P := hlP.subset (by rw [hlx]; exact List.mem_of_getLast? hlast)
+      have hyQ : y ∈ Q := hdQ.subset (by rw [hy]; simp)
+      have := ssorted_append_lt (by rw [← hPQ]; exact hS) _ hinP y hyQ
+      unfold lastOf at hlm
+      omega
+  | cons c rest ih =>
+    intro done row P Q hcs hPQ hrow hinv
+    have hccs : c ∈ cs := by rw [hcs]; simp
+    obtain ⟨hcne, hcinf⟩ := hcut c hccs
+    obtain ⟨x, r, hx⟩ : ∃ x r, c.samples = x :: r := by
+      cases hcs' : c.samples with
+      | nil => exact absurd hcs' hcne
+      | cons x r => exact ⟨x, r, rfl⟩
+    obtain ⟨hcm, hcM⟩ := mint_of_cons hx
+    have hcsorted : SSorted (x :: r) := by
+      rw [← hx]; exact List.Pairwise.sublist hcinf.sublist hS
+    have hcs' : cs = (done ++ [c]) ++ rest := by rw [hcs]; simp
+    simp only [List.foldl_cons]
+    by_cases hfit : fits row c = true
+    · -- c is appended to row 0
+      have hstep : ffStep row c = row ++ [c] := by simp [ffStep, hfit]
+      rw [hstep]
+      -- everything in P is before c
+      have hPlt : ∀ a ∈ P, a.t < x.t := by
+        rcases hinv with ⟨_, hP, _⟩ | ⟨l, hl, hlcs, hlP, _⟩
+        · intro a ha; rw [hP] at ha; simp at ha
+        · intro a ha
+          simp only [fits, hl, decide_eq_true_eq] at hfit
+          obtain ⟨lx, lr, hlx⟩ : ∃ lx lr, l.samples = lx :: lr := by
+            cases hls : l.samples with
+            | nil => exact absurd hls (hcut l hlcs).1
+            | cons lx lr => exact ⟨lx, lr, rfl⟩
+          have hlm := (mint_of_cons hlx).2
+          -- a ≤ last of P = last of l.samples
+          obtain ⟨p0, hp0⟩ := hlP
+          have hPs : SSorted P := List.Pairwise.sublist (List.sublist_append_left P Q) (by rw [← hPQ]; exact hS)
+          have : a.t ≤ lastOf lx lr := by
+            rw [← hp0, hlx] at ha hPs
+            rcases List.mem_append.mp ha with ha | ha
+            · have hlast : (lx :: lr).getLast? = some (lr.getLast?.getD lx) := getLast?_cons_getD lr lx
+              have := ssorted_append_lt hPs a ha _ (List.mem_of_getLast? hlast)
+              unfold lastOf; omega
+            · exact le_lastOf (List.Pairwise.sublist (List.sublist_append_right p0 _) hPs) a ha
+          omega
+      have hinQ : c.samples <:+: Q := infix_right hx (by rw [← hPQ]; exact hcinf) hPlt
+      obtain ⟨u, v, huv⟩ := hinQ
+      -- u = []
+      have hu : u = [] := by
+        cases u with
+        | nil => rfl
+        | cons y u' =>
+          exfalso
+          have hQhead : Q.head? = some y := by rw [← huv]; rfl
+          have hbd : P = [] ∨ ∃ c' ∈ cs, c'.samples <:+ P := by
+            rcases hinv with ⟨_, hP, _⟩ | ⟨l, _, hlcs, hlP, _⟩
+            · exact Or.inl hP
+            · exact Or.inr ⟨l, hlcs, hlP⟩
+          have hyx0 : y.t < x.t := by
+            have hQs : SSorted Q := List.Pairwise.sublist (List.sublist_append_right P Q) (by rw [← hPQ]; exact hS)
+            rw [← huv, hx] at hQs
+            exact head_lt_of_infix (u := u') (v := v) hQs
+          have hyM : y.t ≤ Mx := by have := hmx c hccs; omega
+          obtain ⟨d, hd, hdne, hdQ⟩ := hsucc P Q y hPQ hQhead hyM hbd
+          obtain ⟨z, r', hz⟩ : ∃ z r', d.samples = z :: r' := by
+            cases hds : d.samples with
+            | nil => exact absurd hds hdne
+            | cons z r' => exact ⟨z, r', rfl⟩
+          have hdm := (mint_of_cons hz).1
+          -- head of d is head of Q = y
+          have hzy : z = y := by
+            obtain ⟨t', ht'⟩ := hdQ
+            rw [hz, ← huv] at ht'
+            simp at ht'
+            exact ht'.1
+          -- y before x
+          have hyx : y.t < x.t := by
+            have hQs : SSorted Q := List.Pairwise.sublist (List.sublist_append_right P Q) (by rw [← hPQ]; exact hS)
+            rw [← huv, hx] at hQs
+            exact head_lt_of_infix (u := u') (v := v) hQs
+          -- d is not processed, hence c.mint ≤ d.mint
+          have hdnot : d ∉ done := by
+            intro hdd
+            rcases hinv with ⟨_, _, hd0⟩ | ⟨l, hl, hlcs, hlP, hdone⟩
+            · rw [hd0] at hdd; simp at hdd
+            · have h1 := hdone d hdd
+              obtain ⟨lx, lr, hlx⟩ : ∃ lx lr, l.samples = lx :: lr := by
+                cases hls : l.samples with
+                | nil => exact absurd hls (hcut l hlcs).1
+                | cons lx lr => exact ⟨lx, lr, rfl⟩
+              have hlm := (mint_of_cons hlx).2
+              have hlast : (lx :: lr).getLast? = some (lr.getLast?.getD lx) := getLast?_cons_getD lr lx
+              have hinP : (lr.getLast?.getD lx) ∈ P := hlP.subset (by rw [hlx]; exact List.mem_of_getLast? hlast)
+              have hyQ : y ∈ Q := by rw [← huv]; simp
+              have := ssorted_append_lt (by rw [← hPQ]; exact hS) _ hinP y hyQ
+              unfold lastOf at hlm
+              rw [hzy] at hdm
+              omega
+          have hle : c.mint ≤ d.mint := by
+            rw [hcs] at hd hsorted
+            rcases List.mem_append.mp hd with hd | hd
+            · exact absurd hd hdnot
+            · rcases List.mem_cons.mp hd with rfl | hd
+              · exact Int.le_refl _
+              · exact (List.pairwise_cons.mp (List.pairwise_append.mp hsorted).2.1).1 d hd
+          rw [hzy] at hdm
+          omega
+      subst hu
+      simp only [List.nil_append] at huv
+      apply ih (done ++ [c]) (row ++ [c]) (P ++ c.samples) v hcs'
+      · rw [hPQ, ← huv]; simp
+      · simp [List.flatMap_append, hrow]
+      · right
+        refine ⟨c, by simp, hccs, List.suffix_append _ _, ?_⟩
+        intro c' hc'
+        rcases List.mem_append.mp hc' with hc' | hc'
+        · rcases hinv with ⟨_, _, hd0⟩ | ⟨l, hl, hlcs, hlP, hdone⟩
+          · rw [hd0] at hc'; simp at hc'
+          · have h1 := hdone c' hc'
+            simp only [fits, hl, decide_eq_true_eq] at hfit
+            have := le_lastOf hcsorted x (by simp)
+            omega
+        · simp at hc'; subst hc'
+          have := le_lastOf hcsorted x (by simp)
+          omega
+    · -- c goes to another row
+      have hstep : ffStep row c = row := by simp [ffStep, hfit]
+      rw [hstep]
+      apply ih (done ++ [c]) row P Q hcs' hPQ hrow
+      rcases hinv with ⟨hr, _, _⟩ | ⟨l, hl, hlcs, hlP, hdone⟩
+      · exfalso; apply hfit; rw [hr]; rfl
+      · right
+        refine ⟨l, hl, hlcs, hlP, ?_⟩
+        intro c' hc'
+        rcases List.mem_append.mp hc' with hc' | hc'
+        · exact hdone c' hc'
+        · simp at hc'; subst hc'
+          simp only [fits, hl, decide_eq_true_eq] at hfit
+          omega
+
+/-- the bounded statement for the first row of `overlapSplit` -/
+theorem firstFit_row0_bounded (S : List Sample) (hS : SSorted S) (cs : List RChunk) (Mx : Int)
+    (hmx : ∀ c ∈ cs, c.mint ≤ Mx)
+    (hcut : ∀ c ∈ cs, c.samples ≠ [] ∧ c.samples <:+: S)
+    (hsorted : cs.Pairwise (fun a b => a.mint ≤ b.mint))
+    (hsucc : ∀ P Q g, S = P ++ Q → Q.head? = some g → g.t ≤ Mx → (P = [] ∨ ∃ c ∈ cs, c.samples <:+ P) →
+      ∃ d ∈ cs, d.samples ≠ [] ∧ d.samples <+: Q)
+    (hne : cs ≠ []) :
+    ∃ P Q, S = P ++ Q ∧ (headRow (overlapSplit cs)).flatMap (·.samples) = P ∧
+      ∀ g, Q.head? = some g → Mx < g.t := by
+  rw [headRow_overlapSplit]
+  exact ff_bounded S hS cs Mx hmx hcut hsorted hsucc hne cs [] [] [] S rfl rfl rfl (Or.inl ⟨rfl, rfl, rfl⟩)
+
 /-- the statement for the first row of `overlapSplit` -/
 theorem firstFit_row0 (S : List Sample) (hS : SSorted S) (cs : List RChunk)
     (hcut : ∀ c ∈ cs, c.samples ≠ [] ∧ c.samples <:+: S)
@@ -816,5 +1009,77 @@ theorem mem_takeLe_sorted : ∀ {l : List Sample}, SSorted l → ∀ {M : Int} {
         · have := hp.1 a h1; omega
 
 theorem takeLe_sublist (M : Int) (l : List Sample) : (takeLe M l).Sublist l := List.takeWhile_sublist _
+
+/-! ### the samples the in-range chunks cover -/
+
+/-- is the sample held by one of the chunks? -/
+def covered (cs : List RChunk) (x : Sample) : Bool := cs.any fun c => c.samples.contains x
+
+theorem covered_iff {cs : List RChunk} {x : Sample} : covered cs x = true ↔ ∃ c ∈ cs, x ∈ c.samples := by
+  simp [covered, List.any_eq_true]
+
+/-- a cut all of whose samples pass the filter is a cut of the filtered sequence -/
+theorem infix_filter {c S : List Sample} (p : Sample → Bool) (hinf : c <:+: S) (hp : ∀ x ∈ c, p x = true) :
+    c <:+: S.filter p := by
+  obtain ⟨s, t, hst⟩ := hinf
+  refine ⟨s.filter p, t.filter p, ?_⟩
+  rw [← hst, List.filter_append, List.filter_append, List.filter_eq_self.mpr hp]
+
+theorem ssorted_eq_of_t {l : List Sample} (hs : SSorted l) {x y : Sample} (hx : x ∈ l) (hy : y ∈ l)
+    (ht : x.t = y.t) : x = y := by
+  induction l with
+  | nil => simp at hx
+  | cons a l ih =>
+    have hp := List.pairwise_cons.mp hs
+    rcases List.mem_cons.mp hx with hxa | hxl
+    · rcases List.mem_cons.mp hy with hya | hyl
+      · rw [hxa, hya]
+      · have := hp.1 y hyl; rw [hxa] at ht; omega
+    · rcases List.mem_cons.mp hy with hya | hyl
+      · have := hp.1 x hxl; rw [hya] at ht; omega
+      · exact ih hp.2 hxl hyl
+
+theorem takeLe_append_dropLe (M : Int) (l : List Sample) : takeLe M l ++ dropLe M l = l :=
+  List.takeWhile_append_dropWhile
+
+theorem mem_takeLe_le' {M : Int} : ∀ {l : List Sample} {x : Sample}, x ∈ takeLe M l → x.t ≤ M
+  | [], x, h => by simp [takeLe] at h
+  | a :: l, x, h => by
+    by_cases hm : a.t ≤ M
+    · have : takeLe M (a :: l) = a :: takeLe M l := by simp [takeLe, hm]
+      rw [this] at h
+      rcases List.mem_cons.mp h with rfl | h
+      · exact hm
+      · exact mem_takeLe_le' h
+    · have : takeLe M (a :: l) = [] := by simp [takeLe, hm]
+      rw [this] at h; simp at h
+
+theorem mem_dropLe_gt {M : Int} {l : List Sample} (hs : SSorted l) {x : Sample} (h : x ∈ dropLe M l) :
+    M < x.t := by
+  induction l with
+  | nil => simp [dropLe] at h
+  | cons a l ih =>
+    have hp := List.pairwise_cons.mp hs
+    by_cases hm : a.t ≤ M
+    · have : dropLe M (a :: l) = dropLe M l := by simp [dropLe, hm]
+      rw [this] at h; exact ih hp.2 h
+    · have : dropLe M (a :: l) = a :: l := by simp [dropLe, hm]
+      rw [this] at h
+      rcases List.mem_cons.mp h with rfl | h
+      · omega
+      · have := hp.1 x h; omega
+
+/-- on a time-sorted list the window is a filter -/
+theorem window_eq_filter {m M : Int} {U : List Sample} (hs : SSorted U) :
+    takeLe M (dropLt m U) = U.filter (fun x => decide (m ≤ x.t) && decide (x.t ≤ M)) := by
+  apply ssorted_ext
+  · exact List.Pairwise.sublist ((takeLe_sublist _ _).trans (dropLt_sublist _ _)) hs
+  · exact List.Pairwise.sublist List.filter_sublist hs
+  · intro x
+    rw [mem_takeLe_sorted (ssorted_dropLt _ hs), mem_dropLt_sorted hs, List.mem_filter]
+    simp only [Bool.and_eq_true, decide_eq_true_eq]
+    constructor
+    · rintro ⟨⟨h1, h2⟩, h3⟩; exact ⟨h1, h2, h3⟩
+    · rintro ⟨h1, h2, h3⟩; exact ⟨⟨h1, h2⟩, h3⟩
 
 end Thanos.Dedup
